@@ -664,7 +664,11 @@ class XPathToken(Token[ta.XPathTokenType]):
         if not base_uri:
             base_uri = self.parser.base_uri
 
-        uri_parts: urllib.parse.ParseResult = urllib.parse.urlparse(uri)
+        try:
+            uri_parts: urllib.parse.ParseResult = urllib.parse.urlparse(uri)
+        except ValueError as err:
+            raise self.error('FORG0002', '{!r} is not a valid URI: {}'.format(uri, err)) from None
+
         if uri_parts.scheme or uri_parts.netloc or base_uri is None:
             return uri
 
